@@ -14,6 +14,7 @@ use serde_json::json;
 use sc::verif::{Action, Call, Rule, GUARDED_FOREVER};
 use vh::runner::{CaseReport, CaseResult, Ctx, Failure};
 
+mod outparams;
 mod scan;
 mod table;
 use self::table::{init_fixtures, Conv, Dom, Driven, Wrapper, EXCLUDED, TABLE};
@@ -387,6 +388,10 @@ pub fn run(ctx: &Ctx) {
     init_fixtures();
 
     if ctx.is_replay() {
+        if ctx.replay_case::<outparams::OutCase>("out-params").is_some() {
+            outparams::run(ctx);
+            return;
+        }
         if let Some(case) = ctx.replay_case::<Case>(SUB) {
             ctx.run_one(SUB, &case, || match lookup(&case.wrapper) {
                 Some(w) => check_case(w, case.value),
@@ -457,4 +462,5 @@ pub fn run(ctx: &Ctx) {
         if thorough { "thorough" } else { "quick" },
         TABLE.len()
     ));
+    outparams::run(ctx);
 }
